@@ -167,22 +167,35 @@ Qed.
 (* ===================================================================================== *)
 (* 2. JSON strings: decode (encode s) = Some s                                            *)
 (* ===================================================================================== *)
-Definition hex_ok (n : N) : bool :=
-  match unhex4 (hexd (n / 4096)) (hexd ((n / 256) mod 16)) (hexd ((n / 16) mod 16)) (hexd (n mod 16)) with
-  | Some m => m =? n
-  | None => false
-  end.
-Lemma hex_ok_all : forallb hex_ok (map N.of_nat (seq 0 (N.to_nat 65536))) = true.
-Proof. vm_compute. reflexivity. Qed.
+Lemma unhexd_hexd d : d < 16 -> unhexd (hexd d) = Some d.
+Proof.
+  intros H. unfold hexd, unhexd. destruct (N.ltb_spec d 10) as [L|L].
+  - assert (E1 : (48 <=? 48 + d) = true) by (apply N.leb_le; lia).
+    assert (E2 : (48 + d <=? 57) = true) by (apply N.leb_le; lia).
+    rewrite E1, E2. cbn [andb]. f_equal. lia.
+  - assert (E1 : (87 + d <=? 57) = false) by (apply N.leb_gt; lia).
+    assert (E2 : (97 <=? 87 + d) = true) by (apply N.leb_le; lia).
+    assert (E3 : (87 + d <=? 102) = true) by (apply N.leb_le; lia).
+    rewrite E1, E2, E3, andb_false_r. cbn [andb]. f_equal. lia.
+Qed.
 
 Lemma unhex4_hex4 n : n < 65536 ->
   unhex4 (hexd (n / 4096)) (hexd ((n / 256) mod 16)) (hexd ((n / 16) mod 16)) (hexd (n mod 16)) = Some n.
 Proof.
-  intros Hn. pose proof hex_ok_all as H. rewrite forallb_forall in H.
-  assert (Hin : In n (map N.of_nat (seq 0 (N.to_nat 65536)))).
-  { rewrite <- (N2Nat.id n). apply in_map. apply in_seq. lia. }
-  specialize (H _ Hin). unfold hex_ok in H.
-  destruct (unhex4 _ _ _ _) as [m|]; [|discriminate]. apply N.eqb_eq in H. now subst.
+  intros Hn.
+  assert (E1 : n / 256 = n / 16 / 16) by (rewrite N.div_div by lia; reflexivity).
+  assert (E2 : n / 4096 = n / 16 / 16 / 16) by (rewrite !N.div_div by lia; reflexivity).
+  rewrite E1, E2. clear E1 E2.
+  pose proof (N.div_mod n 16) as D1. pose proof (N.mod_lt n 16) as M1.
+  remember (n / 16) as q1 eqn:Q1. remember (n mod 16) as r1 eqn:R1. clear Q1 R1.
+  pose proof (N.div_mod q1 16) as D2. pose proof (N.mod_lt q1 16) as M2.
+  remember (q1 / 16) as q2 eqn:Q2. remember (q1 mod 16) as r2 eqn:R2. clear Q2 R2.
+  pose proof (N.div_mod q2 16) as D3. pose proof (N.mod_lt q2 16) as M3.
+  remember (q2 / 16) as q3 eqn:Q3. remember (q2 mod 16) as r3 eqn:R3. clear Q3 R3.
+  assert (H16 : 16 <> 0) by lia.
+  specialize (D1 H16). specialize (M1 H16). specialize (D2 H16). specialize (M2 H16).
+  specialize (D3 H16). specialize (M3 H16).
+  unfold unhex4. rewrite !unhexd_hexd by lia. f_equal. lia.
 Qed.
 
 Lemma dec_uesc a b c d rest :
@@ -678,3 +691,67 @@ Qed.
 (* a view's merchants (sections): same statement for build_section_merchants on its own *)
 Lemma section_merchants ms : NoDup (map mid ms) -> map snd (by_id ms) = map to_j ms.
 Proof. intros H. rewrite (by_id_nodup _ H), map_map. reflexivity. Qed.
+
+(* ---- every category / subcategory total is the sum over the merchants listed under it ----- *)
+Definition sub_ok (s : subcat) : Prop :=
+  s_total s = sumZ (map (fun p => j_ytd (snd p)) (s_merchants s)) /\
+  s_count s = sumZ (map (fun p => j_count (snd p)) (s_merchants s)).
+Definition cat_ok (c : category) : Prop :=
+  c_total c = sumZ (map s_total (c_subs c)) /\ c_count c = sumZ (map s_count (c_subs c)) /\
+  Forall sub_ok (c_subs c).
+
+Lemma add_sub_ok subs sn id j :
+  Forall sub_ok subs -> ~ In id (keys (flat_map sub_pairs subs)) ->
+  Forall sub_ok (add_sub subs sn id j) /\
+  sumZ (map s_total (add_sub subs sn id j)) = sumZ (map s_total subs) + j_ytd j /\
+  sumZ (map s_count (add_sub subs sn id j)) = sumZ (map s_count subs) + j_count j.
+Proof.
+  induction subs as [|s r IH]; intros Hok Hn.
+  - cbn [add_sub]. split; [|cbn; lia]. constructor; [|constructor]. split; cbn; lia.
+  - inversion Hok as [|? ? Hs Hr]; subst. cbn [add_sub]. destruct (text_eqb sn (s_name s)).
+    + assert (Hf : ~ In id (keys (s_merchants s))).
+      { intros G. apply Hn. cbn [flat_map]. unfold keys. rewrite map_app. apply in_or_app. left. exact G. }
+      split; [|cbn [map sumZ fold_right s_total s_count]; fold (sumZ (map s_total r)); fold (sumZ (map s_count r)); lia].
+      constructor; [|exact Hr]. destruct Hs as [H1 H2]. unfold sub_ok. cbn [s_total s_count s_merchants].
+      rewrite (tset_notin _ _ _ Hf), !map_app, !sumZ_app. cbn [map sumZ fold_right snd]. lia.
+    + destruct IH as [I1 [I2 I3]]; [exact Hr| |].
+      { intros G. apply Hn. cbn [flat_map]. unfold keys. rewrite map_app. apply in_or_app. right. exact G. }
+      split; [constructor; assumption|]. cbn [map sumZ fold_right].
+      fold (sumZ (map s_total (add_sub r sn id j))). fold (sumZ (map s_count (add_sub r sn id j))).
+      fold (sumZ (map s_total r)). fold (sumZ (map s_count r)). lia.
+Qed.
+
+Lemma add_cat_ok cs cn sn id j :
+  Forall cat_ok cs -> ~ In id (keys (view_pairs cs)) -> Forall cat_ok (add_cat cs cn sn id j).
+Proof.
+  unfold view_pairs. induction cs as [|c r IH]; intros Hok Hn.
+  - cbn [add_cat]. constructor; [|constructor]. unfold cat_ok. cbn [c_total c_count c_subs].
+    destruct (add_sub_ok [] sn id j) as [A1 [A2 A3]]; [constructor|intros []|].
+    rewrite A2, A3. cbn. repeat split; try lia. exact A1.
+  - inversion Hok as [|? ? Hc Hr]; subst. cbn [add_cat]. destruct (text_eqb cn (c_name c)).
+    + constructor; [|exact Hr]. destruct Hc as [H1 [H2 H3]]. unfold cat_ok. cbn [c_total c_count c_subs].
+      destruct (add_sub_ok (c_subs c) sn id j) as [A1 [A2 A3]]; [exact H3| |].
+      { intros G. apply Hn. cbn [flat_map]. unfold keys. rewrite map_app. apply in_or_app. left. exact G. }
+      rewrite A2, A3. repeat split; try lia. exact A1.
+    + constructor; [exact Hc|]. apply IH; [exact Hr|].
+      intros G. apply Hn. cbn [flat_map]. unfold keys. rewrite map_app. apply in_or_app. right. exact G.
+Qed.
+
+Lemma group_fold_ok l : forall cs, Forall cat_ok cs -> NoDup (keys (view_pairs cs) ++ keys l) ->
+  Forall cat_ok (fold_left ins l cs).
+Proof.
+  induction l as [|p l IH]; intros cs Hok H; [exact Hok|].
+  cbn [fold_left]. cbn [keys map] in H.
+  assert (Hn : ~ In (fst p) (keys (view_pairs cs))).
+  { intros G. apply NoDup_remove_2 in H. apply H. apply in_or_app. left. exact G. }
+  pose proof (ins_pairs _ _ Hn) as HP.
+  apply IH.
+  - unfold ins. apply add_cat_ok; assumption.
+  - apply (Permutation_NoDup (l := fst p :: keys (view_pairs cs) ++ keys l)).
+    + change (fst p :: keys (view_pairs cs) ++ keys l) with ((fst p :: keys (view_pairs cs)) ++ keys l).
+      apply Permutation_app_tail. apply Permutation_sym. apply (Permutation_map fst) in HP. exact HP.
+    + apply (Permutation_NoDup (Permutation_sym (Permutation_middle _ _ _))). exact H.
+Qed.
+
+Lemma category_view_ok ms : Forall cat_ok (category_view ms).
+Proof. unfold category_view, group. apply group_fold_ok; [constructor|]. cbn [view_pairs flat_map app]. apply by_id_keys_nodup. Qed.
